@@ -176,12 +176,16 @@ class CompileEngine:
             by_bin = {}
             unattributed = []
             derive_more_failed = False
+            built = set()
             for line in p.stdout.splitlines():
                 if not line.startswith("{"):
                     continue
                 try:
                     m = json.loads(line)
                 except ValueError:
+                    continue
+                if m.get("reason") == "compiler-artifact":
+                    built.add(m.get("target", {}).get("name"))
                     continue
                 if m.get("reason") != "compiler-message":
                     continue
@@ -237,6 +241,10 @@ class CompileEngine:
                         newly_dirty.add(i)
             if p.returncode != 0 and not any(by_bin.get(self._bin_name(i)) for i in dirty):
                 raise MachineryError("cargo failed without attributable diagnostics:\n" + p.stderr[-6000:])
+            for i in dirty:
+                bname = self._bin_name(i)
+                if bname not in built and not any(l == "error" for l, _, _, _ in by_bin.get(bname, [])):
+                    raise MachineryError("bin %s produced neither an artifact nor an error (compiler crash or resource limit?):\n%s" % (bname, p.stderr[-3000:]))
             dirty = newly_dirty
             if not dirty:
                 break
